@@ -9,7 +9,7 @@ statement decided from a free state (the designs are stateless), complete per de
 """
 import itertools
 import z3
-from ..harness import Harness, Built
+from ..harness import HarnessError, Harness, Built
 from ..seq import Unroll, cosim
 from ..util import atmost1
 
@@ -190,6 +190,9 @@ def configs(tier, seed):
         if base not in out:
             out.append(base)
 
+    for wrap in (0, 1, 2):
+        for how in ("if", "enable"):
+            out.append(dict(family="condwrap", wrap=wrap, how=how))
     if tier == "quick":
         for nw, nr in ((1, 1), (2, 1), (1, 2), (2, 2)):
             for ex in (0, 1, 2):
@@ -329,7 +332,77 @@ def _prove(ctx, name, goal, u, tries=6):
         return r
 
 
+def _make_condwrap(cfg):
+    """Connect whose write side is called CONDITIONALLY (m.If(valid) / enable_call), directly or through a wrapper method."""
+    from amaranth import Elaboratable, Signal
+    from transactron import TModule, Transaction, Method, def_method
+    from transactron.lib import Connect
+
+    class D(Elaboratable):
+        def __init__(self):
+            self.c = Connect([("d", 2)], [("r", 2)])
+            self.req_w, self.req_r, self.valid = Signal(name="req_w"), Signal(name="req_r"), Signal(name="valid")
+            self.arg_w, self.arg_r = Signal(2, name="arg_w"), Signal(2, name="arg_r")
+            self.got_w, self.got_r = Signal(2, name="got_w"), Signal(2, name="got_r")
+            self.run_w, self.run_r = Signal(name="run_w"), Signal(name="run_r")
+
+        def elaborate(self, platform):
+            m = TModule()
+            m.submodules.c = self.c
+            tgt = self.c.write
+            for k in range(cfg["wrap"]):
+                wv = Method(i=[("d", 2)], o=[("r", 2)], name=f"wrap{k}")
+
+                def define(wv=wv, inner=tgt):
+                    @def_method(m, wv)
+                    def _(arg):
+                        return inner(m, arg)
+
+                define()
+                tgt = wv
+            with Transaction(name="T_w").body(m, ready=self.req_w):
+                m.d.comb += self.run_w.eq(1)
+                if cfg["how"] == "if":
+                    with m.If(self.valid):
+                        m.d.top_comb += self.got_w.eq(tgt(m, d=self.arg_w).r)
+                else:
+                    m.d.top_comb += self.got_w.eq(tgt(m, d=self.arg_w, enable_call=self.valid).r)
+            with Transaction(name="T_r").body(m, ready=self.req_r):
+                m.d.comb += self.run_r.eq(1)
+                m.d.top_comb += self.got_r.eq(self.c.read(m, r=self.arg_r).d)
+            return m
+
+    d = D()
+    inputs = dict(req_w=d.req_w, req_r=d.req_r, valid=d.valid, arg_w=d.arg_w, arg_r=d.arg_r)
+    observe = lambda d: {"run_w": d.run_w, "run_r": d.run_r, "got_w": d.got_w, "got_r": d.got_r, "w.run": d.c.write.run, "r.run": d.c.read.run}
+    return Harness(d, {}, inputs=inputs, observe=observe)
+
+
+def _run_condwrap(cfg, ctx):
+    try:
+        b = Built(lambda: _make_condwrap(cfg))
+    except HarnessError:
+        raise
+    except Exception as e:  # the library refuses the design: the safe outcome, nothing to prove
+        ctx.notes["condwrap_rejected_by_library"] = ctx.notes.get("condwrap_rejected_by_library", 0) + 1
+        ctx._record(f"condwrap wrap={cfg['wrap']} {cfg['how']}: design refused at elaboration ({type(e).__name__}) - accepted outcome", "obligation", "unsat", 0.0)
+        return
+    u = Unroll(b, free_init=True)
+    o = u.cycle()
+    ctx.frames += 1
+    B = lambda n: o.sig(n) == 1
+    tag = f"condwrap wrap={cfg['wrap']} {cfg['how']}"
+    ctx.witness(f"{tag}: producer runs with the call disabled", [B("run_w"), o.sig("valid") == 0])
+    ctx.prove(f"{tag}: Connect.read and Connect.write run in exactly the same cycles", [], B("r.run") == B("w.run"), u)
+    ctx.prove(f"{tag}: Connect.write runs only when its conditional call is enabled and the producer runs", [], z3.Implies(B("w.run"), z3.And(B("run_w"), B("valid"))), u)
+    ctx.prove(f"{tag}: Connect.read runs only when the consumer runs", [], z3.Implies(B("r.run"), B("run_r")), u)
+    ctx.prove(f"{tag}: data is exchanged in both directions when the pair runs", [],
+              z3.Implies(B("w.run"), z3.And(o.sig("got_r") == o.sig("arg_w"), o.sig("got_w") == o.sig("arg_r"))), u)
+
+
 def run(cfg, ctx):
+    if cfg.get("family") == "condwrap":
+        return _run_condwrap(cfg, ctx)
     simple = cfg["writers"] == 1 and cfg["readers"] == 1 and cfg.get("thirds", 1) == 1
     b = Built(lambda: make(cfg), trace_functions=(ctx.index == 0 or simple and cfg["extra"] == 0))
     ctx.functions = b.functions
